@@ -86,6 +86,8 @@ pub struct Case {
     pub no_output: bool,
     pub note: String,
     pub profile: String,
+    /// 0 = system allocator, 1 = guard page right of every tape/context block, 2 = left
+    pub guard: u8,
 }
 
 fn mode_json(m: Mode) -> Value {
@@ -121,6 +123,7 @@ impl Case {
             "no_output": self.no_output,
             "note": self.note,
             "profile": self.profile,
+            "guard": self.guard,
         })
     }
     pub fn from_json(v: &Value) -> Option<Case> {
@@ -139,6 +142,7 @@ impl Case {
             no_output: v["no_output"].as_bool().unwrap_or(false),
             note: v["note"].as_str().unwrap_or("").to_string(),
             profile: v["profile"].as_str().unwrap_or("").to_string(),
+            guard: v["guard"].as_u64().unwrap_or(0) as u8,
         })
     }
 }
@@ -164,7 +168,10 @@ fn run_typed<C: CellType>(case: &Case) -> NativeRun {
     } else {
         Some(Box::new(NWriter { log: log.clone(), fail_at: case.fail_write_at, ok0: case.out_ok0, count: 0 }))
     };
+    crate::guard::set_case(&case.to_json().to_string());
+    crate::guard::set_mode(case.guard);
     let ret = subject::run::<C>(&*exec, case.mode, input, output);
+    crate::guard::set_mode(0);
     let events = log.borrow().clone();
     NativeRun { ret: Ok(ret), events }
 }
